@@ -87,6 +87,7 @@ type CheckResult struct {
 	KnownWhat  map[*Obligation]*KnownFinding
 	GenErrors  []string
 	Vacuous    []string
+	Retried    []string // obligations decided only at the second attempt with a longer time limit
 	Wall       float64
 	SolverTime float64
 	BySolver   map[string]int
@@ -166,6 +167,29 @@ func (e *Engine) RunCheck(opt CheckOpts) *CheckResult {
 		}(ctx)
 	}
 	wg.Wait()
+	// second chance for a handful of undecided obligations (never for refuted ones): see FnCtx.Retry
+	{
+		type und struct {
+			ctx *FnCtx
+			o   *Obligation
+		}
+		var undecided []und
+		for _, ctx := range res.Funcs {
+			for _, o := range ctx.Obls {
+				if o.Kind == "canary" || o.Quick || o.Verdict == "unsat" || o.Verdict == "sat" {
+					continue
+				}
+				undecided = append(undecided, und{ctx, o})
+			}
+		}
+		if n := len(undecided); n > 0 && n <= 8 {
+			for _, u := range undecided {
+				if u.ctx.Retry(sc, u.o, 4) {
+					res.Retried = append(res.Retried, u.o.Name)
+				}
+			}
+		}
+	}
 	for _, ctx := range res.Funcs {
 		ncan, ncanUnsat := 0, 0
 		for _, o := range ctx.Obls {
@@ -349,6 +373,7 @@ func (res *CheckResult) Evidence(opt CheckOpts, cmdline string) map[string]inter
 		"bounded_obligations_held": res.BoundedOK,
 		"generator_errors":         res.GenErrors,
 		"vacuity":                  map[string]interface{}{"vacuous_functions": res.Vacuous, "canary": "an 'assert false' at every normal exit must not be provable"},
+		"decided_at_second_attempt": res.Retried,
 		"samples":                  samples,
 	}
 	return map[string]interface{}{
